@@ -151,15 +151,16 @@ RECURSIVE SumE(_, _, _, _)
 ExpLayerParams(a, e, nobias) ==
     LET n == e.n  kk == IF Op(a, n) = "lin" THEN 1 ELSE IF a.dim = 1 THEN e.k ELSE e.k * e.k IN
     (e.out_ch * (e.in_ch \div e.groups) * kk) + (IF e.bias_idx # <<>> /\ ~nobias THEN e.out_ch ELSE 0)
+\* per-invocation metric: summed over all calls of the layer (outpos_sum = total number of output positions)
 ExpLayerOps(a, e, nobias) ==
     LET n == e.n  kk == IF Op(a, n) = "lin" THEN 1 ELSE IF a.dim = 1 THEN e.k ELSE e.k * e.k IN
-    ((e.out_ch * (e.in_ch \div e.groups) * kk) + (IF e.bias_idx # <<>> /\ ~nobias THEN e.out_ch ELSE 0)) * e.outpos
+    ((e.out_ch * (e.in_ch \div e.groups) * kk) + (IF e.bias_idx # <<>> /\ ~nobias THEN e.out_ch ELSE 0)) * e.outpos_sum
 SumE(a, es, i, which) ==
     IF i > Len(es) THEN 0
     ELSE (CASE which = "params"          -> ExpLayerParams(a, es[i], FALSE)
             [] which = "params_no_bias"  -> ExpLayerParams(a, es[i], TRUE)
-            [] which = "ops"             -> ExpLayerOps(a, es[i], FALSE) * es[i].calls
-            [] which = "ops_no_bias"     -> ExpLayerOps(a, es[i], TRUE) * es[i].calls
+            [] which = "ops"             -> ExpLayerOps(a, es[i], FALSE)
+            [] which = "ops_no_bias"     -> ExpLayerOps(a, es[i], TRUE)
             [] OTHER -> 0) + SumE(a, es, i + 1, which)
 \* signature of F26: an exported NON-depthwise conv with in = out = groups = 1 (the CostSpec depthwise pattern
 \* matches it, the pattern chosen for the NAS layer was the generic one)
